@@ -23,6 +23,8 @@ func c04Field(t *rapid.T) string {
 	return "f" + strconv.Itoa(rapid.IntRange(0, 299).Draw(t, "f"))
 }
 
+func c04Hot(t *rapid.T) string { return "f" + strconv.Itoa(rapid.IntRange(0, 2).Draw(t, "hot3")) }
+
 var c04Vals = []string{"", "0", "1", "-1", "5", "-5", "9223372036854775807", "-9223372036854775808", "9223372036854775806", "-9223372036854775807",
 	"4611686018427387904", "-4611686018427387904", "abc", "1.5", "0.25", " 3", "v"}
 
@@ -32,7 +34,7 @@ var c04Incs = []string{"0", "1", "-1", "5", "-5", "9223372036854775807", "-92233
 func c04Step(t *rapid.T) kit.Argv {
 	k := c04Key(t)
 	cn := func(s string) string { return randCase(t, s) }
-	switch weighted(t, "cmd", []int{8, 3, 4, 5, 4, 3, 3, 3, 3, 3, 5, 10, 4, 6, 5, 5, 1, 1}) {
+	switch weighted(t, "cmd", []int{8, 3, 4, 5, 4, 3, 3, 3, 3, 3, 5, 12, 4, 5, 4, 9, 1, 1}) {
 	case 0:
 		a := []string{cn(pick(t, "hset", "HSET", "HSET", "HMSET")), k}
 		for i := rapid.IntRange(1, 3).Draw(t, "n"); i > 0; i-- {
@@ -67,7 +69,7 @@ func c04Step(t *rapid.T) kit.Argv {
 		return kit.A(cn("HINCRBYFLOAT"), k, c04Field(t), pick(t, "f", "1", "0.5", "-0.25", "1.5", "-3", "abc", "nan", "inf", ""))
 	case 11:
 		// HINCRBY biased towards integer-valued fields: set then increment is common via hot fields
-		return kit.A(cn("HINCRBY"), k, c04Field(t), pick(t, "inc", c04Incs...))
+		return kit.A(cn("HINCRBY"), pick(t, "hk2", "h1", "h1", "h2", k), c04Hot(t), pick(t, "inc", c04Incs...))
 	case 12:
 		a := []string{cn("HRANDFIELD"), k}
 		if rapid.Bool().Draw(t, "cnt") {
@@ -100,7 +102,7 @@ func c04Step(t *rapid.T) kit.Argv {
 		return kit.A(a...)
 	case 15:
 		// integer-valued hot field, so HINCRBY meets every sign combination
-		return kit.A("HSET", pick(t, "hk", "h1", "h2"), c04Field(t), pick(t, "iv", c04Incs...))
+		return kit.A("HSET", pick(t, "hk", "h1", "h2"), c04Hot(t), pick(t, "iv", c04Incs...))
 	case 16:
 		return kit.A("DEL", k)
 	default:
